@@ -8,8 +8,9 @@
      lower()/strip()/int() also know non-ASCII letters, spaces and digits: outside the domain.
    * [py_int] models [int(s)] in base 10 for ASCII text: surrounding whitespace (the C isspace
      set 9..13, 32 — NOT 28..31, which str.strip() does strip), one optional
-     sign, digits with single underscores between digits.  (CPython >= 3.11 additionally
-     refuses more than 4300 digits: outside the domain.)
+     sign, digits with single underscores between digits, and at most 4300 digit characters
+     (CPython >= 3.11, sys.get_int_max_str_digits() = 4300: leading zeros count, underscores,
+     sign and blanks do not; int("0" * 4301) raises ValueError) — [dig_lim].
    * HMAC-SHA512 and HASH160 are Section variables.
    * Base58Check (the xprv/xpub STRING) is not part of this file: the model works on the raw
      bytes that [raw_decode_base58] returns / [encode_base58_checksum] receives.
@@ -80,6 +81,11 @@ Fixpoint dig_acc (acc : Z) (prevd : bool) (l : list Z) : result Z :=
       else if (c =? 95) && prevd then dig_acc acc false r
       else Err
   end.
+(* CPython >= 3.11: more than 4300 digit characters (leading zeros included, underscores not)
+   -> ValueError "Exceeds the limit (4300 digits) for integer string conversion" *)
+Definition max_str_digits : Z := 4300.
+Definition dig_lim (l : list Z) : result Z :=
+  if max_str_digits <? zlen (filter is_digit l) then Err else dig_acc 0 false l.
 (* int() skips C isspace() characters only (9..13 and 32), unlike str.strip() *)
 Definition is_ws_int (c : Z) : bool := ((9 <=? c) && (c <=? 13)) || (c =? 32).
 Fixpoint lstrip_int (s : list Z) : list Z :=
@@ -92,9 +98,9 @@ Definition py_int (s : list Z) : result Z :=
   match strip_int s with
   | [] => Err
   | c :: r =>
-      if c =? 43 then dig_acc 0 false r
-      else if c =? 45 then v <- dig_acc 0 false r ;; Ok (- v)
-      else dig_acc 0 false (c :: r)
+      if c =? 43 then dig_lim r
+      else if c =? 45 then v <- dig_lim r ;; Ok (- v)
+      else dig_lim (c :: r)
   end.
 
 (* Python l[k:] *)
